@@ -113,7 +113,7 @@ def model_check(ctx):
 
     def expect_violation(t):
         cfg, inv = t
-        r = vlib.tlc("LinearityMC", cfg, workers=2, timeout=600, xmx="2g", tag="LinearityVac")
+        r = vlib.tlc("LinearityMC", cfg, workers=2, timeout=600, xmx="2g", tag="LinearityVac", expect=inv)
         if inv not in r.invariant_violated:
             raise vlib.Infra("%s: TLC did not violate %s\n%s" % (cfg, inv, "\n".join(r.out.splitlines()[-15:])))
         return {"cfg": cfg, "violates": inv, "states": r.distinct}
